@@ -189,6 +189,69 @@ def impl_meta(o):
     m = re.search(r"misplaced=(\d+)", o)
     return int(m.group(1)) if m else 0
 
+def vote_weights(ds, w):
+    return [1.0 if w == 0 else (1e100 if d < 1e-100 else 1.0 / d) for d in ds]
+
+def knn_valid(tr, labels, nb):
+    """nb = [(distance, label)] as returned by a back-end; tr = 16 d^2 of every data point; is nb a list of K nearest
+    neighbours (distances non-decreasing and equal to the K smallest, every (distance, label) pair backed by a data point,
+    all points strictly nearer than the K-th distance present)?  returns None or a message"""
+    from collections import Counter
+    K = len(nb); st = sorted(tr)
+    got = [int(round(16.0 * d * d)) for d, _ in nb]
+    if got != st[:K]: return "reported 16d^2 %s, the %d smallest true values are %s" % (got, K, st[:K])
+    have = Counter((t, l) for t, l in zip(tr, labels)); rep = Counter(zip(got, [l for _, l in nb]))
+    for key, cnt in rep.items():
+        if cnt > have.get(key, 0): return "neighbour (16d^2=%s, label %s) reported %d times, the data set has %d such points" % (key[0], key[1], cnt, have.get(key, 0))
+    last = st[K - 1]
+    for key, cnt in have.items():
+        if key[0] < last and rep.get(key, 0) != cnt: return "point(s) (16d^2=%s, label %s) nearer than the k-th distance are missing" % key
+    return None
+
+def close_list(x, y, tol=1e-9):
+    return len(x) == len(y) and all(abs(u - v) <= tol * (1 + abs(v)) for u, v in zip(x, y))
+
+OBS = {"tie_cases": 0, "tie_backends_differ": 0, "example": None, "single_class_predicts_1": 0}
+
+def monitor_vote_C(c, t, o, tkey):
+    """C <k> <w> <nc> h..:  C tree=<class>;<scores>;<d:l,..> simple=..."""
+    msgs = []
+    K, w, ncr = int(t[1]), int(t[2]), int(t[3]); h = list(map(int, t[4:])); tr = true16(c, h); n = len(tr)
+    labels = [(5 * i + 2) % ncr for i in range(n)]; nc = max(labels) + 1
+    m = re.match(r"C tree=(\d+);([^;]*);(\S*) simple=(\d+);([^;]*);(\S*)$", o)
+    if not m: return [(tkey, "unparsable %s" % o[:200])]
+    res = []
+    for be, (cl, sc, nb) in (("TreeNearestNeighbors", m.group(1, 2, 3)), ("SimpleNearestNeighbors", m.group(4, 5, 6))):
+        cl = int(cl); sc = [float(x) for x in sc.split(",")]; nb = [(float(a), int(b)) for a, b in (x.split(":") for x in nb.split(","))]
+        bad = knn_valid(tr, labels, nb) if len(nb) == K else "returned %d of %d neighbours" % (len(nb), K)
+        if bad: msgs.append((tkey if be[0] == "T" else "simpleNN:neighbours", "%s.getNeighbors(k=%d), query h=%s: %s" % (be, K, h, bad))); continue
+        ws = vote_weights([d for d, _ in nb], w); hist = [0.0] * nc
+        for wi, (_, l) in zip(ws, nb): hist[l] += wi
+        exp = [x / sum(ws) for x in hist]
+        if not close_list(sc, exp): msgs.append(("nnmodel:vote", "NearestNeighborModel(k=%d,%s) on %s: scores %s, the %s vote of the returned neighbours %s gives %s" % (K, "1/distance" if w else "uniform", be, sc, "1/distance" if w else "uniform", nb, exp))); continue
+        top = sorted(exp, reverse=True)
+        if nc == 1:
+            if cl != 1: msgs.append(("nnmodel:vote", "single-class data set: Classifier thresholds the one score %s at 0 and must report 1, got %d" % (sc, cl)))
+            OBS["single_class_predicts_1"] += 1
+        elif len(top) < 2 or top[0] - top[1] > 1e-12 * (1 + top[0]):
+            if cl != exp.index(max(exp)): msgs.append(("nnmodel:vote", "NearestNeighborModel(k=%d) on %s: class %d, arg max of the scores %s is %d" % (K, be, cl, sc, exp.index(max(exp)))))
+        elif cl not in [i for i, x in enumerate(exp) if top[0] - x <= 1e-12 * (1 + top[0])]:
+            msgs.append(("nnmodel:vote", "NearestNeighborModel(k=%d) on %s: class %d is not among the maximal scores %s" % (K, be, cl, sc)))
+        res.append((cl, sc, sorted((int(round(16 * d * d)), l) for d, l in nb)))
+    if len(res) == 2:
+        (c1, s1, m1), (c2, s2, m2) = res; st = sorted(tr)
+        tie = K < n and st[K - 1] == st[K]
+        if m1 == m2:
+            if c1 != c2 or not close_list(s1, s2): msgs.append(("nnmodel:backends-differ", "same neighbours %s, but tree back-end predicts %d %s and brute-force back-end %d %s (k=%d, query h=%s)" % (m1, c1, s1, c2, s2, K, h)))
+        elif not tie: msgs.append(("nnmodel:backends-differ", "no tie at the k-th distance, but the back-ends return different (16d^2, label) multisets %s / %s (k=%d, query h=%s)" % (m1, m2, K, h)))
+        if tie:
+            OBS["tie_cases"] += 1
+            if m1 != m2 and (c1 != c2 or not close_list(s1, s2)):
+                OBS["tie_backends_differ"] += 1
+                if OBS["example"] is None or len(c["pts"]) < OBS["example"][0]:
+                    OBS["example"] = (len(c["pts"]), "%s / %s -> tree back-end: neighbours %s class %d, brute-force back-end: neighbours %s class %d (both are k nearest neighbours; tie at 16d^2=%d)" % (dline(c), " ".join(t), m1, c1, m2, c2, st[K - 1]))
+    return msgs
+
 def monitor_case(c, out):
     """returns list of (key, message) — the property's predicate on the implementation's own output"""
     msgs = []
@@ -229,11 +292,38 @@ def monitor_case(c, out):
                 if bad: msgs.append((tkey, "%s tree, query h/2 with h=%s: %s" % (c["kind"], h, bad)))
             except (ValueError, KeyError, IndexError) as e:
                 msgs.append((tkey, "unparsable output for %s: %s" % (l, o[:200])))
+        elif t[0] == "C":
+            msgs += monitor_vote_C(c, t, o, tkey)
         elif t[0] == "P":
             K, w = int(t[1]), int(t[2]); h = list(map(int, t[3:])); tr = true16(c, h)
             order = sorted(range(n), key=lambda i: (tr[i], i))
             if K > n: continue
-            if K < n and tr[order[K - 1]] == tr[order[K]]: continue        # tie at the boundary: either choice is right
+            # the neighbours each back-end returned (tn= / sn=): valid k nearest neighbours, and the prediction is their weighted mean
+            rl = [((7 * i + 3) % 11, i % 3) for i in range(n)]; preds = {}
+            mp = re.match(r"P tree=(\S+),(\S+) simple=(\S+),(\S+)", o)
+            for be, fld, pr in (("TreeNearestNeighbors", "tn", mp.group(1, 2) if mp else None), ("SimpleNearestNeighbors", "sn", mp.group(3, 4) if mp else None)):
+                mm = re.search(r" %s=(\S+)" % fld, o)
+                if not mm or not mp: continue
+                nb = [(float(a), tuple(int(float(x)) for x in b.split(","))) for a, b in (x.split(":") for x in mm.group(1).split(";"))]
+                bad = knn_valid(tr, rl, nb) if len(nb) == K else "returned %d of %d neighbours" % (len(nb), K)
+                if bad: msgs.append((tkey if be[0] == "T" else "simpleNN:neighbours", "%s.getNeighbors(k=%d), query h=%s: %s" % (be, K, h, bad))); continue
+                ws = vote_weights([d for d, _ in nb], w)
+                exp = [sum(wi * l[j] for wi, (_, l) in zip(ws, nb)) / sum(ws) for j in range(2)]
+                if not close_list([float(pr[0]), float(pr[1])], exp):
+                    msgs.append(("nnmodel:vote", "NearestNeighborModel(k=%d,%s) regression on %s: prediction %s, the weighted mean of the returned neighbours %s is %s" % (K, "1/distance" if w else "uniform", be, pr, nb, exp)))
+                preds[be] = ([float(pr[0]), float(pr[1])], sorted((int(round(16 * d * d)), l) for d, l in nb))
+            if K < n and tr[order[K - 1]] == tr[order[K]]:
+                # tie at the k-th distance: each back-end may pick any of the tied points (C17_vote_backend_tie_refuted); counted, not hidden
+                OBS["tie_cases"] += 1
+                if len(preds) == 2:
+                    (p1, m1), (p2, m2) = preds["TreeNearestNeighbors"], preds["SimpleNearestNeighbors"]
+                    if m1 != m2 and not close_list(p1, p2):
+                        OBS["tie_backends_differ"] += 1
+                        if OBS["example"] is None or n < OBS["example"][0]:
+                            OBS["example"] = (n, "%s / %s -> tree back-end: neighbours %s prediction %s, brute-force back-end: neighbours %s prediction %s (tie at 16d^2=%d)" % (dline(c), l, m1, p1, m2, p2, tr[order[K - 1]]))
+                    elif m1 == m2 and not close_list(p1, p2):
+                        msgs.append(("nnmodel:backends-differ", "same neighbours %s, predictions %s / %s" % (m1, p1, p2)))
+                continue
             def pred(sq):
                 ws = []
                 for i in order[:K]:
@@ -241,7 +331,7 @@ def monitor_case(c, out):
                     ws.append(1.0 if w == 0 else (1e100 if d < 1e-100 else 1.0 / d))
                 s = sum(ws)
                 return [sum(wi * ((7 * i + 3) % 11) for wi, i in zip(ws, order[:K])) / s, sum(wi * (i % 3) for wi, i in zip(ws, order[:K])) / s]
-            m = re.match(r"P tree=(\S+),(\S+) simple=(\S+),(\S+)$", o)
+            m = re.match(r"P tree=(\S+),(\S+) simple=(\S+),(\S+)", o)
             if not m: msgs.append((tkey, "unparsable %s" % o)); continue
             a = [float(m.group(1)), float(m.group(2))]; b = [float(m.group(3)), float(m.group(4))]
             close = lambda x, y: all(abs(u - v) <= 1e-9 * (1 + abs(v)) for u, v in zip(x, y))
@@ -367,6 +457,12 @@ def main():
                     pts = [[a[j] + t * b[j] for j in range(d)] for t in (rx.randint(-6, 6) for _ in range(n))]
                 else: pts = [[rx.randint(-6, 6) for _ in range(d)] for _ in range(n)]
                 fresh.append(({"kind": kind, "bucket": 0, "dim": d, "pts": pts, "body": []}, 3, False))
+        # NearestNeighborModel: classification (C lines) and regression (P lines) votes on every kind of tree, both back-ends
+        for kind, m in (("kd", 36), ("lc", 22), ("khc", 18), ("khc2", 18)):
+            for _ in range(m * (10 if big else 1)):
+                dim, pts = gen_points(rx, big)
+                if kind == "khc2": pts = [[max(-6, min(6, x)) for x in p] for p in pts]
+                fresh.append(({"kind": kind, "bucket": 0, "dim": dim, "pts": pts, "body": []}, 6, "V"))
         # phase 1: build the trees only, to aim queries at the real splitting planes
         o1 = run_impl([c for c, _, _ in fresh], "phase1")
         for (c, nq, isP), (o, rc, e) in zip(fresh, o1):
@@ -378,7 +474,17 @@ def main():
                 ptree = parse_ptree(re.search(r"ptree=(\S+)", o[0]).group(1))
             qs = gen_queries(rng, c, tree, nq, ptree)
             if c["kind"] == "khc2": qs = ["Q " + " ".join(str(max(-120, min(120, int(x)))) for x in q.split()[1:]) for q in qs]
-            if isP:
+            if isP == "V":
+                n = len(c["pts"]); vq = []
+                for q in qs:
+                    r = rx.random()
+                    if r < 0.35:                                   # a tie: the midpoint of two data points / a data point itself (zero distance)
+                        a, b = rx.choice(c["pts"]), rx.choice(c["pts"]); q = "Q " + " ".join(str(x + y) for x, y in zip(a, b))
+                    k = rx.randint(1, min(n, 6)); w = rx.randint(0, 1)
+                    if rx.random() < 0.7 or c["kind"] == "khc2": vq.append("C %d %d %d %s" % (k, w, rx.choice([1, 2, 2, 3, 3, 4]), q[2:]))
+                    else: vq.append("P %d %d %s" % (k, w, q[2:]))
+                qs = vq
+            elif isP:
                 n = len(c["pts"])
                 qs = ["P %d %d %s" % (rng.randint(1, min(n, 5)), rng.randint(0, 1), q[2:]) for q in qs]
             c["body"] = qs
@@ -561,6 +667,47 @@ def main():
         why = proj_differs(cases[ci], a, implq)
         if why: pdis.append((ci, why))
 
+
+    # ---- correspondence of the vote: the extracted C17Vote model, in exact rational arithmetic, on the neighbour list each real
+    # back-end returned (distances as exact doubles), vs the prediction of NearestNeighborModel: class scores / decision / mean
+    vstat = {"votes_classification": 0, "votes_regression": 0, "decisions_compared": 0}
+    vcases = []; vmeta = []
+    for ci, c in enumerate(cases):
+        if io[ci][1] != 0 or ci in mon_failed_cases: continue
+        lines = []; meta = []
+        for l, o in zip(c["body"], io[ci][0][1:]):
+            t = l.split()
+            if t[0] == "C":
+                m = re.match(r"C tree=(\d+);([^;]*);(\S*) simple=(\d+);([^;]*);(\S*)$", o)
+                if not m: continue
+                for be, (cl, sc, nb) in (("tree", m.group(1, 2, 3)), ("simple", m.group(4, 5, 6))):
+                    lines.append("V %d %d %s" % (1 if t[2] == "0" else 0, len(sc.split(",")), nb)); meta.append((l, be, int(cl), [float(x) for x in sc.split(",")]))
+            elif t[0] == "P":
+                mp = re.match(r"P tree=(\S+),(\S+) simple=(\S+),(\S+)", o)
+                for be, fld, grp in (("tree", "tn", (1, 2)), ("simple", "sn", (3, 4))):
+                    mm = re.search(r" %s=(\S+)" % fld, o)
+                    if mp and mm:
+                        lines.append("W %d 2 %s" % (1 if t[2] == "0" else 0, mm.group(1))); meta.append((l, be, None, [float(mp.group(grp[0])), float(mp.group(grp[1]))]))
+        if lines: vcases.append(lines); vmeta.append((ci, meta))
+    vdis = []
+    for (ci, meta), (a, rca, ea), lines in zip(vmeta, run_cases(model, vcases, os.path.join(tmpd, "vote_model.txt")) if vcases else [], vcases):
+        if rca != 0: raise RuntimeError("model driver failed on vote case %d: %s" % (ci, ea))
+        for (l, be, cl, sc), x, ml in zip(meta, a, lines):
+            f = x.split()
+            if f[0] == "V":
+                msc = [float(y) for y in f[2].split(",")]; vstat["votes_classification"] += 1
+                if not close_list(msc, sc, 1e-12): vdis.append((ci, "%s (%s back-end, model input %s): scores model %s / implementation %s" % (l, be, ml, msc, sc))); break
+                # the decision (first maximal score) is compared unless two different scores are within rounding of the maximum
+                exact_max = set(int(y) for y in f[3].split(",")) if len(f) > 3 else set()
+                amb = any(0 < abs(max(v) - x) <= 1e-12 * (1 + max(v)) for v in (msc, sc) for x in v) or \
+                      any(set(i for i, x in enumerate(v) if x == max(v)) != exact_max for v in (msc, sc))      # a difference that doubles cannot see (1e100 + 1)
+                if not amb:
+                    vstat["decisions_compared"] += 1
+                    if int(f[1]) != cl: vdis.append((ci, "%s (%s back-end, model input %s): class model %s / implementation %d" % (l, be, ml, f[1], cl))); break
+            else:
+                mv = [float(y) for y in f[1].split(",")]; vstat["votes_regression"] += 1
+                if not close_list(mv, sc, 1e-12): vdis.append((ci, "%s (%s back-end, model input %s): prediction model %s / implementation %s" % (l, be, ml, mv, sc))); break
+
     # ---- reporting -----------------------------------------------------------------------------
     def fails_with(c, key):
         return any(k == key for k, _ in case_failures(c, run_impl([c], "shrink")[0]))
@@ -675,6 +822,26 @@ def main():
                          "correspondence model vs LCTree/KHCTree no longer checks (%d cases differ: %s); the exhaustive-search monitor passes on every explored input" % (len(pdis), why[:400]), no_input=True)
     ck.oblige("correspondence C17Proj/C17Gen (bounds, plane distances, query on the real tree, exact rational arithmetic) vs LCTree / KHCTree / IterativeNNQuery on %d trees: %d node bounds, %d plane distances, %d queries (%d with queue size and radius)"
               % (pstat["trees"], pstat["node_bounds"], pstat["plane_distances"], pstat["queries"], pstat["trace_compared"]), not pdis and (pstat["trees"] > 0 or not pj), "%d disagreements" % len(pdis))
+
+
+    if vdis:
+        log("[C17] vote correspondence: %d disagreeing cases; first: %s" % (len(vdis), vdis[0][1][:600]))
+        if not unknown_mon:
+            ci, why = vdis[0]; c = cases[ci]; l = why.split(" (")[0]
+            small = dict(c, body=[l]); lines = case_lines(small)
+            cf = ck.write_replay("case_corr_vote_%d.txt" % ci, "\n".join(lines) + "\n")
+            ck.violation("correspondence-vote", {"case_file": cf, "case": lines, "difference": why,
+                                                 "broken": "correspondence C17Vote.nn_scores / nn_classify / nn_regress vs detail::BaseNearestNeighbor::eval / Classifier::eval",
+                                                 "replay_cmd": "python3 tools/c17.py --replay %s" % cf},
+                         "correspondence vote model vs NearestNeighborModel no longer checks (%d cases differ: %s); the vote monitor passes on every explored input" % (len(vdis), why[:400]), no_input=True)
+    ck.oblige("correspondence C17Vote (exact rational arithmetic on the neighbours each back-end returned) vs NearestNeighborModel: %d classification votes (%d decisions), %d regression votes"
+              % (vstat["votes_classification"], vstat["decisions_compared"], vstat["votes_regression"]), not vdis and (vstat["votes_classification"] > 0 or not vcases), "%d disagreements" % len(vdis))
+    if OBS["tie_backends_differ"]:
+        log("[C17] observation (not a violation of the search property; see C17_vote_backend_tie_refuted): in %d of %d votes with a tie at the k-th distance the tree back-end and the brute-force back-end returned different tied points and NearestNeighborModel predicted differently; smallest example: %s"
+            % (OBS["tie_backends_differ"], OBS["tie_cases"], OBS["example"][1] if OBS["example"] else "-"))
+    ck.notes["vote_model"] = dict(vstat, ties_at_kth_distance=OBS["tie_cases"], ties_where_backends_predict_differently=OBS["tie_backends_differ"],
+                                  example=(OBS["example"][1] if OBS["example"] else None), single_class_data_sets_predicting_class_1=OBS["single_class_predicts_1"],
+                                  note="with a tie at the k-th distance both back-ends return valid k nearest neighbours but may pick different tied points; the prediction then differs although the reported distances are equal (theorem C17_vote_backend_tie_refuted); without such a tie C17_vote_backends_agree applies and the monitor requires equal predictions")
 
     nlines = sum(len(c["body"]) for c in cases)
     ck.cov["evaluations"] = nlines
